@@ -14,11 +14,31 @@ def lowerHex (s : String) : Bool :=
   s = "-" ∨ s = "." ∨ (s.length > 0 ∧ s.length % 2 = 0 ∧
     s.toList.all (fun c => ('0' ≤ c ∧ c ≤ '9') ∨ ('a' ≤ c ∧ c ≤ 'f')))
 
-def parseTx (s : String) : Option Bytes := if lowerHex s then ofHex s else none
+/-- tx token: lower-case hex, "-"/"." (empty), or "hh*N" = byte hh repeated N times -/
+def parseTx (s : String) : Option Bytes :=
+  match s.splitOn "*" with
+  | [h, n] =>
+    if h.length = 2 ∧ lowerHex h ∧ s.length ≤ 10 ∧ n.length ≥ 1 ∧ n.toList.all Char.isDigit ∧
+        n.toList.head? ≠ some '0' then
+      match ofHex h, n.toNat? with
+      | some [b], some k => some (List.replicate k b)
+      | _, _ => none
+    else none
+  | _ => if lowerHex s then ofHex s else none
+
+/-- canonical output form: "." empty, runs of ≥ 8 equal bytes as hh*N, else hex -/
+def showTx (b : Bytes) : String :=
+  match b with
+  | [] => "."
+  | x :: _ =>
+    if b.length ≥ 8 ∧ b.all (· == x) then toHex [x] ++ "*" ++ toString b.length else toHex b
+
+def showTxs (l : List Bytes) : String :=
+  if l.isEmpty then "-" else ",".intercalate (l.map showTx)
 
 def obs : Pool → String
-  | .v0 s => s!" | n={s.txs.length} b={s.txsBytes} all={hexListStr (V0.reapMaxTxs s (-1))}"
-  | .v1 s => s!" | n={s.txs.length} b={s.txsBytes} all={hexListStr (V1.reapMaxTxs s (-1))}"
+  | .v0 s => s!" | n={s.txs.length} b={s.txsBytes} all={showTxs (V0.reapMaxTxs s (-1))}"
+  | .v1 s => s!" | n={s.txs.length} b={s.txsBytes} all={showTxs (V1.reapMaxTxs s (-1))}"
 
 def bool01 (i : Int) : Option Bool := if i = 0 then some false else if i = 1 then some true else none
 
@@ -165,16 +185,16 @@ def step (st : Option Pool) (toks : List String) : Option Pool × String :=
         match getInt rest "bytes", getInt rest "gas" with
         | some b, some g =>
           match p with
-          | .v0 s => (st, hexListStr (V0.reapMaxBytesMaxGas s b g) ++ obs p)
-          | .v1 s => (st, hexListStr (V1.reapMaxBytesMaxGas s b g) ++ obs p)
+          | .v0 s => (st, showTxs (V0.reapMaxBytesMaxGas s b g) ++ obs p)
+          | .v1 s => (st, showTxs (V1.reapMaxBytesMaxGas s b g) ++ obs p)
         | _, _ => (st, "bad-op")
       | "reapn" =>
         match getInt rest "n" with
         | some n =>
           if n > 1073741824 ∨ n < -1073741824 then (st, "bad-op") else
           match p with
-          | .v0 s => (st, hexListStr (V0.reapMaxTxs s n) ++ obs p)
-          | .v1 s => (st, hexListStr (V1.reapMaxTxs s n) ++ obs p)
+          | .v0 s => (st, showTxs (V0.reapMaxTxs s n) ++ obs p)
+          | .v1 s => (st, showTxs (V1.reapMaxTxs s n) ++ obs p)
         | none => (st, "bad-op")
       | _ => (st, "bad-op")
   | [] => (st, "bad-op")
